@@ -28,7 +28,7 @@ def make_ghosts(K, specs, vars, mem, consts):
             def f(*args):
                 env = ConcEnv(specs, vars, mem, dict(zip(gh.params, args)), None, None, ghosts, None, consts)
                 env.old = env
-                return env.eval(gh.body)
+                return env.eval(gh.body if gh.body is not None else gh.concrete)
             return f
         ghosts[gh.name] = mk(gh)
     return ghosts
